@@ -37,7 +37,7 @@ func init() {
 
 // c17Mark is printed right before every ক্লক() call: the simulated wall clock at that
 // output event is "the moment of the call", whatever the implementation does inside.
-var c17Mark = KwPrint + " \"@c\";"
+var c17Mark = KwPrint + " \"@c\"; " + FnInput + "();"
 
 type c17Item struct {
 	kind string // now | store | show | loop | func
@@ -101,7 +101,7 @@ func c17Program(s Src) (prog string, order []int, ncalls int, shape string) {
 func c17Case(s Src) *Case {
 	prog, order, ncalls, shape := c17Program(s)
 	cs := &Case{Prop: "C17", Kind: "clock", Sig: shape, Program: prog}
-	c := drawClock(s, scriptCfg(prog, ""), ncalls)
+	c := drawClock(s, scriptCfg(prog, strings.Repeat("m\n", ncalls+2)), ncalls)
 	cs.Runs = []Run{{Role: "clock", Cfg: c}}
 	cs.Aux = &Aux{C17: &C17Expect{PrintOrder: order, Calls: ncalls}}
 	return cs
@@ -122,7 +122,7 @@ func c17Systematic(tier string) []*Case {
 	steps := []int64{0, 1, 999, 1000, 3600_000, 86_400_000 * 400, -5000, -1}
 	for _, st := range clockStarts {
 		for _, sp := range steps {
-			c := scriptCfg(prog, "")
+			c := scriptCfg(prog, "m\nm\nm\n")
 			c.ClockStartMs = st
 			c.ClockStepsMs = []int64{sp, 1}
 			c.TZOffsetMin = []int{0, 360, -300, 765}[len(out)%4]
@@ -137,7 +137,7 @@ func c17Systematic(tier string) []*Case {
 		for off := int64(-3); off <= 0; off++ {
 			one := KwPrint + " " + FnClock + "();"
 			prog5 := lines(c17Mark, one, c17Mark, one, c17Mark, one, c17Mark, one, c17Mark, one)
-			c := scriptCfg(prog5, "")
+			c := scriptCfg(prog5, "m\nm\nm\nm\nm\nm\n")
 			c.ClockStartMs = base + off
 			c.ClockStepsMs = []int64{1, 1, 1, 1, 1}
 			c.ClockNs = 500000
@@ -153,7 +153,7 @@ func c17Systematic(tier string) []*Case {
 		p := lines(fmt.Sprintf("%s down(n) { %s (n > 0) { %s down(n - 1); } %s %s %s(); }", KwFun, KwIf, KwReturn, c17Mark, KwReturn, FnClock), fmt.Sprintf("%s down(%d);", KwPrint, depth))
 		c0 := scriptCfg(plain, "")
 		c0.Budget = 60000000
-		c := scriptCfg(p, "")
+		c := scriptCfg(p, "m\nm\n")
 		c.Budget = 60000000
 		c.ClockStartMs = 1_727_000_000_000
 		cs := &Case{Prop: "C17", Kind: "clock-deep", Sig: fmt.Sprintf("deep:%d", depth), Program: p, Runs: []Run{{Role: "fresh-process:clock", Cfg: c}, {Role: "fresh-process:plain", Cfg: c0}}}
@@ -162,7 +162,7 @@ func c17Systematic(tier string) []*Case {
 	}
 	// in interactive mode every line sees the real ক্লক, whatever an earlier line did to the name
 	{
-		stdin := lines(FnClock+" = 0;", KwVar+" keep = "+FnClock+";", KwPrint+" \"#A#\";", c17Mark, KwPrint+" "+FnClock+"();", KwPrint+" \"#B#\";")
+		stdin := lines(FnClock+" = 0;", KwVar+" keep = "+FnClock+";", KwPrint+" \"#A#\";", c17Mark, "m", KwPrint+" "+FnClock+"();", KwPrint+" \"#B#\";")
 		c := replCfg(stdin)
 		c.ClockStartMs = 1_727_000_000_000
 		cs := &Case{Prop: "C17", Kind: "clock-repl", Sig: "repl:rebound-earlier", Program: stdin, Runs: []Run{{Role: "clock", Cfg: c}}}
@@ -227,22 +227,64 @@ func c17Eval(cs *Case, ctx *EvalCtx) []Violation {
 		at    int64   // wall clock (ms) at the marker
 		reads []int64 // wall-clock readings taken after it
 	}
-	var refs []callRef
-	for _, e := range o.Res.Events {
+	// Where does call k begin in the history? Three independent witnesses, the first whose count
+	// fits is used: the entry of the built-in's Call method (absent if an implementation answers
+	// without calling it, or dispatches built-ins differently), the read of standard input by the
+	// ইনপুট() placed right before every call (input arrives line by line, so every ইনপুট must
+	// really read), the marker print (useless if output is buffered until the end).
+	var byBuiltin, byRead, byOut []int
+	for i, e := range o.Res.Events {
 		switch e.Kind {
+		case "BUILTIN":
+			if !strings.Contains(e.Data, "Input") {
+				byBuiltin = append(byBuiltin, i)
+			}
+		case "READ":
+			if e.N > 0 {
+				byRead = append(byRead, i)
+			}
 		case "OUT":
 			if strings.Contains(e.Data, "@c") {
-				refs = append(refs, callRef{at: e.T})
-			}
-		case "NOW":
-			if len(refs) > 0 {
-				refs[len(refs)-1].reads = append(refs[len(refs)-1].reads, e.N)
+				byOut = append(byOut, i)
 			}
 		}
 	}
-	if len(refs) != ex.Calls {
-		add("output-shape", fmt.Sprintf("expected %d call markers, saw %d: stdout=%q", ex.Calls, len(refs), o.Stdout))
-		return vs
+	if cs.Kind == "clock-repl" {
+		// the prompt itself reads every line: the call begins when the line holding it has been read
+		byRead = nil
+		for i, e := range o.Res.Events {
+			if e.Kind == "READ" && e.N > 0 && strings.Contains(e.Data, KwPrint+" "+FnClock+"()") {
+				byRead = append(byRead, i)
+			}
+		}
+		if len(byBuiltin) > 1 {
+			byBuiltin = byBuiltin[len(byBuiltin)-1:]
+		}
+	}
+	var starts []int
+	switch {
+	case len(byBuiltin) == ex.Calls:
+		starts = byBuiltin
+	case len(byRead) == ex.Calls:
+		starts = byRead
+	case len(byOut) == ex.Calls:
+		starts = byOut
+	default:
+		fatal2("C17: cannot tell where the %d ক্লক() calls begin in the history (%d built-in entries, %d marker reads, %d marker prints): stdout=%q stderr=%q", ex.Calls, len(byBuiltin), len(byRead), len(byOut), o.Stdout, o.Stderr)
+	}
+	var refs []callRef
+	for k, st := range starts {
+		end := len(o.Res.Events)
+		if k+1 < len(starts) {
+			end = starts[k+1]
+		}
+		r := callRef{at: o.Res.Events[st].T}
+		for _, e := range o.Res.Events[st:end] {
+			if e.Kind == "NOW" {
+				r.reads = append(r.reads, e.N)
+			}
+		}
+		refs = append(refs, r)
 	}
 	// nows[k]: the instant call k is held to when two calls are compared (its last reading, or the marker if it took none)
 	nows := make([]int64, len(refs))
@@ -261,10 +303,17 @@ func c17Eval(cs *Case, ctx *EvalCtx) []Violation {
 		val := ""
 		if a >= 0 && b > a {
 			segLines := strings.Split(stdout[a+4:b], "\n")
-			for i := 0; i+1 < len(segLines); i++ {
-				if strings.HasSuffix(segLines[i], "@c") {
-					val = regexp.MustCompile(`[-+]?[0-9]*\.?[0-9]+(?:[eE][-+]?[0-9]+)?$`).FindString(segLines[i+1])
-					break
+			seen := false
+			for _, l := range segLines {
+				if strings.HasSuffix(l, "@c") {
+					seen = true
+					continue
+				}
+				if seen {
+					// (the marker's ইনপুট() echoes the line it read; the number comes after it)
+					if val = regexp.MustCompile(`[-+]?[0-9]*\.?[0-9]+(?:[eE][-+]?[0-9]+)?$`).FindString(l); val != "" {
+						break
+					}
 				}
 			}
 		}
